@@ -72,7 +72,53 @@ class ScopeGenProblem(IoGenProblem):
         self._head = []             # variables of the forall-effect that is being built (must stay pairwise distinct)
         self._seen = []             # every variable made so far
         self.scope_stats = {}
+        self._probed = False
         IoGenProblem.__init__(self, rng, **knobs)
+        self._add_probes()
+
+    def add_io_metric(self):
+        self._add_probes()          # before the metric: an action-cost metric then knows every action
+        return IoGenProblem.add_io_metric(self)
+
+    def _add_probes(self):
+        """1-2 actions of the shape `leave(l): exists l'. road(l, l')`: the ONLY precondition (or the condition of the
+        only effect) is a quantifier whose variable is named like a parameter and whose body relates the two, so that
+        the reading of the formula decides the applicability (the successor) already in the initial state"""
+        if self._probed:
+            return
+        self._probed = True
+        from collections import OrderedDict
+        from unified_planning.model import InstantaneousAction
+        rng, em, p = self.rng, self.em, self.problem
+        bools = [f for f in self.fluents if f.type.is_bool_type()]
+        for _ in range(rng.randint(1, 2)):
+            if len(self._pool) < 4:
+                return
+            ptypes = [self.T0 if rng.random() < 0.55 else self.T1 for _ in range(rng.randint(1, 2))]
+            a = InstantaneousAction(self.fresh_name(), OrderedDict((self.fresh_name(), t) for t in ptypes), self.env)
+            params = list(a.parameters)
+            pp = rng.choice(params)
+            nm = pp.name
+            if rng.random() < 0.3 and _variants(nm):
+                nm = rng.choice(_variants(nm))
+            v = self.Variable(nm, pp.type if rng.random() < 0.6 else rng.choice([self.T0, self.T1]), self.env)
+            wit = self._relate(v, pp)
+            if wit is None:
+                continue
+            self._seen.append(v)
+            if rng.random() < 0.4:
+                wit = rng.choice([em.And, em.Or])(*rng.sample([wit, self.gen_bool(1, params, (v,))], 2))
+            q = (em.Exists if rng.random() < 0.6 else em.Forall)(wit, v)
+            target = self.gen_fluent(rng.choice(bools), 0, params, ())
+            if rng.random() < 0.6:
+                a.add_precondition(q)
+                a.add_effect(target, em.Bool(rng.random() < 0.5))
+                self._count("probe-precondition")
+            else:
+                a.add_effect(target, em.Bool(rng.random() < 0.5), q)
+                self._count("probe-effect-condition")
+            p.add_action(a)
+            self.actions.append(a)
 
     # the two entry points that know the parameters / the variables in scope
     def gen_bool(self, depth, params, scope):
@@ -82,9 +128,16 @@ class ScopeGenProblem(IoGenProblem):
         try:
             if depth > 0 and self.k["quantifiers"] and self.rng.random() < 0.3:
                 # more quantifiers than the base grammar (same construction)
-                v = self.fresh_var(self.rng.choice([self.T0, self.T1]))
+                rng, em = self.rng, self.em
+                v = self.fresh_var(rng.choice([self.T0, self.T1]))
                 body = self.gen_bool(depth - 1, params, tuple(scope) + (v,))
-                return (self.em.Exists if self.rng.random() < 0.5 else self.em.Forall)(body, v)
+                # like `exists l'. road(l, l')`: the body relates the variable to the thing it is named like
+                clash = [x for x in list(params) + list(scope) if x != v and _norm(x.name) == _norm(v.name)]
+                wit = self._relate(v, rng.choice(clash)) if clash and rng.random() < 0.8 else None
+                if wit is not None:
+                    self._count("body-relates-variable-and-namesake")
+                    body = rng.choice([em.And, em.Or, em.Implies])(*rng.sample([wit, body], 2))
+                return (em.Exists if rng.random() < 0.5 else em.Forall)(body, v)
             return IoGenProblem.gen_bool(self, depth, params, scope)
         finally:
             self._gb_depth -= 1
@@ -96,6 +149,30 @@ class ScopeGenProblem(IoGenProblem):
             return IoGenProblem.add_random_effect(self, a, params)
         finally:
             self._head = []
+
+    def _relate(self, v, item):
+        """an atom (or a pair of atoms) over the variable v and the parameter / variable `item`"""
+        em, rng = self.em, self.rng
+        ev = em.VariableExp(v)
+        ei = em.VariableExp(item) if isinstance(item, self.Variable) else em.ParameterExp(item)
+        tv, ti = v.type, item.type
+        c = []
+        for f in self.fluents:
+            if not f.type.is_bool_type():
+                continue
+            sig = [pp.type for pp in f.signature]
+            if len(sig) == 1 and self.compatible(tv, sig[0]) and self.compatible(ti, sig[0]):
+                c.append(lambda f=f: em.And(em.FluentExp(f, (ev,)), em.Not(em.FluentExp(f, (ei,)))))
+                c.append(lambda f=f: em.Or(em.Not(em.FluentExp(f, (ev,))), em.FluentExp(f, (ei,))))
+            if len(sig) == 2:
+                if self.compatible(tv, sig[0]) and self.compatible(ti, sig[1]):
+                    c += [lambda f=f: em.FluentExp(f, (ev, ei))] * 2
+                if self.compatible(ti, sig[0]) and self.compatible(tv, sig[1]):
+                    c += [lambda f=f: em.FluentExp(f, (ei, ev))] * 2
+        if self.compatible(tv, ti) or self.compatible(ti, tv):
+            c.append(lambda: em.Equals(ev, ei))
+            c.append(lambda: em.Not(em.Equals(ev, ei)))
+        return rng.choice(c)() if c else None
 
     def _count(self, k):
         self.scope_stats[k] = self.scope_stats.get(k, 0) + 1
@@ -167,7 +244,7 @@ def _roads(label):
 
 
 def scope_corpus():
-    """* `var-named-like-parameter`: a road map a -> b -> c, c -> c.  `leave(l)`: "some location is reachable from l",
+    """* `var-named-like-parameter`: a road map a -> b -> c.  `leave(l)`: "some location is reachable from l",
       the quantified variable is ALSO called l (reading it as `exists l. road(l, l)` makes leave(a) inapplicable);
       `enter(L)`: the variable is called `l`, the parameter `L` (equal after lower-casing); `scan(x)`: a forall-effect
       whose variable is called like the parameter of ANOTHER action and a conditional effect whose condition
@@ -179,7 +256,7 @@ def scope_corpus():
     out = []
     # ------------------------------------------------------------------ 1
     env, em, p, Loc, City, (a, b, c), road, at, mark, gone = _roads("var-named-like-parameter")
-    for x, y in ((a, b), (b, c), (c, c)):
+    for x, y in ((a, b), (b, c)):
         p.set_initial_value(road(x, y), True)
     p.set_initial_value(at(a), True)
     v_l = Variable("l", Loc, env)
